@@ -328,6 +328,24 @@ theorem C01_registered_id_is_held (cap : Nat) (as : List MuxOwn.Act) (st : MuxOw
   refine ⟨this, ?_⟩
   simp [MuxOwn.step, this]
 
+/-- the second sentence of the property on the finer machine: while the peer holds the request of call `c` on id `s`, or
+    its answer is under way - also after `c` timed out or was cancelled, and whatever other calls are doing inside
+    releaseStream - `s` is held by `c` and no other request can be given it -/
+theorem C01_own_no_reuse_while_late (cap : Nat) (as : List MuxOwn.Act) (st : MuxOwn.St)
+    (h : MuxOwn.run .code (MuxOwn.init cap) as = some st) (s c : Nat) (ho : st.closed = none)
+    (hw : st.wire s = .pending c ∨ ∃ f, st.wire s = .answered c f) (c' : Nat) (w : MuxOwn.Who) :
+    st.owner s = some c ∧ MuxOwn.step .code st (.reserve c' s w) = none :=
+  C01_registered_id_is_held cap as st h s c (C01_registered_before_written cap as st h s c hw) ho c' w
+
+/-- non-vacuity: call 1 on id 1 is cancelled, call 2 is parked inside releaseStream having freed id 64: id 64 can be
+    given out again, id 1 can not -/
+example : ∃ st, MuxOwn.run .code (MuxOwn.init 128)
+    [.reserve 1 1 .user, .register 1, .write 1, .writeReturned 1, .cancel 1,
+     .reserve 2 64 .user, .register 2, .write 2, .writeReturned 2, .answer 64 0 2, .deliver 64, .release 2] = some st ∧
+    st.wire 1 = .pending 1 ∧ (MuxOwn.step .code st (.reserve 3 1 .user)).isNone = true ∧
+    (MuxOwn.step .code st (.reserve 3 64 .user)).isSome = true := by
+  refine ⟨_, rfl, ?_, ?_, ?_⟩ <;> decide
+
 /-- addCall never finds another call registered under the id it was given ("attempting to use stream already in use"
     is dead code as long as ids are freed only after the registration is gone) -/
 theorem C01_no_duplicate_registration (cap : Nat) (as : List MuxOwn.Act) (st : MuxOwn.St)
